@@ -2,9 +2,8 @@
 // burndown history is mergeMatrices(sum of the histories of the first result's developers of that merged identity,
 // the same for the second result), and the interaction matrix is the re-indexed sum of the inputs.
 // The class of a failure is computed from the inputs alone: `merged-identity-key` when some merged identity is not
-// one input string carrying both of its members' positions (the code looks the merged string up in a table keyed by
-// the input strings, and assigns instead of adding rows of the first result) — recorded finding D6; otherwise
-// `burndown-people-merge`.
+// one input string carrying both of its members' positions (defect D6, repaired by c03597d: no longer a listed
+// finding, so it is reported again if it returns); otherwise `burndown-people-merge`.
 package main
 
 import (
@@ -62,6 +61,7 @@ type side struct {
 	Begin  int64
 	End    int64
 	Hists  []leaves.DenseHistory
+	Global leaves.DenseHistory
 	Matrix leaves.DenseHistory
 }
 
@@ -97,21 +97,22 @@ func main() {
 					}
 				}
 			}
+			if rng.Intn(8) == 0 {
+				sd.Dict, sd.Hists, sd.Matrix = nil, nil, nil // a result produced without developer tracking
+			}
+			sd.Global = genHist(rng, size, s, g)
 			return sd
 		}
 		wantSane := rng.Intn(2) == 0
 		a, b := mk(poolA, wantSane), mk(poolB, wantSane)
 		desc, _ := json.Marshal(map[string]interface{}{"seed": cs, "sampling": s, "granularity": g, "r1": a, "r2": b})
-		if len(a.Dict) == 0 || len(b.Dict) == 0 {
-			return string(desc), "burndown-people-merge", "", []string{"skipped_empty_side"}
+		if len(a.Dict) == 0 && len(b.Dict) == 0 {
+			return string(desc), "burndown-people-merge", "", []string{"skipped_no_developers"}
 		}
 		c1 := &core.CommonAnalysisResult{BeginTime: a.Begin, EndTime: a.End, CommitsNumber: 1, RunTimePerItem: map[string]float64{}}
 		c2 := &core.CommonAnalysisResult{BeginTime: b.Begin, EndTime: b.End, CommitsNumber: 1, RunTimePerItem: map[string]float64{}}
-		gl1, gl2 := genHist(rng, len(a.Hists[0])*s, s, g), genHist(rng, len(b.Hists[0])*s, s, g)
-		gl1, gl2 = gl1[:len(a.Hists[0])], gl2[:len(b.Hists[0])]
-		r1 := leaves.VerifNewBurndownResult(a.Hists[0], a.Hists, a.Matrix, a.Dict, day*1e9, s, g)
-		r2 := leaves.VerifNewBurndownResult(b.Hists[0], b.Hists, b.Matrix, b.Dict, day*1e9, s, g)
-		_, _ = gl1, gl2
+		r1 := leaves.VerifNewBurndownResult(a.Global, a.Hists, a.Matrix, a.Dict, day*1e9, s, g)
+		r2 := leaves.VerifNewBurndownResult(b.Global, b.Hists, b.Matrix, b.Dict, day*1e9, s, g)
 		people, mergedDict := identity.MergeReversedDictsIdentities(a.Dict, b.Dict)
 		np := len(mergedDict)
 		// members of every merged identity, and the class of the case
@@ -129,6 +130,15 @@ func main() {
 				(len(m1[I]) == 1) != (p.First >= 0) || (len(m2[I]) == 1) != (p.Second >= 0) ||
 				(len(m1[I]) == 1 && p.First != m1[I][0]) || (len(m2[I]) == 1 && p.Second != m2[I][0]) {
 				sane = false
+			}
+		}
+		if len(a.Dict) == 0 || len(b.Dict) == 0 {
+			sane = true // one-sided: every merged identity is an input string with its own position
+			for I, key := range mergedDict {
+				p, ok := people[key]
+				if !ok || len(m1[I])+len(m2[I]) != 1 || (len(m1[I]) == 1 && p.First != m1[I][0]) || (len(m2[I]) == 1 && p.Second != m2[I][0]) {
+					sane = false
+				}
 			}
 		}
 		class, tag := "burndown-people-merge", "identities_kept"
@@ -187,7 +197,11 @@ func main() {
 				}
 			}
 		}
-		if !reflect.DeepEqual(want, merged.PeopleMatrix) {
+		// the global history is the merge of the global histories
+		if wg := leaves.VerifMergeMatrices(a.Global, b.Global, g, s, g, s, day*1e9, c1, c2); !reflect.DeepEqual(wg, merged.GlobalHistory) {
+			return string(desc), "burndown-people-merge", "global history is not mergeMatrices of the inputs' global histories", []string{tag}
+		}
+		if !reflect.DeepEqual(want, merged.PeopleMatrix) && !(len(want) == 0 && len(merged.PeopleMatrix) == 0) {
 			return string(desc), class, fmt.Sprintf("interaction matrix %v, re-indexed sums of the inputs %v", merged.PeopleMatrix, want), []string{tag}
 		}
 		return string(desc), class, "", []string{tag}
